@@ -7,7 +7,9 @@ P="$(readlink -f "$1")"; shift
 cd "$(dirname "$0")/.." || exit 2
 export GOFLAGS=-mod=mod GOPROXY=off GOSUMDB=off GOTOOLCHAIN=local
 if [ -n "$(git -C /repo status --porcelain)" ]; then echo "seedcheck: /repo is not clean"; exit 2; fi
-trap 'git -C /repo checkout -- . >/dev/null 2>&1' EXIT
+# the evidence directory belongs to the unchanged tree: keep it aside while the changed tree is checked
+EVB=$(mktemp -d /tmp/evidence-backup.XXXXXX); cp -a evidence/. "$EVB"/
+trap 'git -C /repo checkout -- . >/dev/null 2>&1; rm -rf evidence; mkdir -p evidence; cp -a "$EVB"/. evidence/; rm -rf "$EVB"' EXIT
 git -C /repo apply "$P" || { echo "seedcheck: patch does not apply"; exit 2; }
 if (cd /repo && go build ./... && go test -vet=off -count=1 ./... >/tmp/seed-suite.log 2>&1); then echo "SUITE: passes with the change"; else echo "SUITE: FAILS with the change (not an acceptable seed)"; tail -5 /tmp/seed-suite.log; fi
 for ID in "$@"; do
